@@ -151,6 +151,8 @@ def run(ctx):
         if 0 <= y * 10 <= 9999 and y < 1000 and y in core:
             for d in range(10):
                 ys.add(y * 10 + d)
+    if ctx.tier == 'thorough':
+        ys = set(range(-1, 10000))     # the whole key domain: 240,024 requests in one process
     ys = sorted(ys)
     keys = [(y, m) for y in ys for m in list(range(1, 13)) + list(range(-12, 0))]
 
@@ -354,8 +356,12 @@ def run(ctx):
                     if hit:
                         ctx.violation('EFFECT-CELL', 'EFFECT:%s:%s-reads-cell' % (ty, fname), '%s::%s reads a memo cell: equality / display of equal values would depend on earlier queries' % (ty, fname))
 
+    if ctx.tier == 'thorough':
+        import witness
+        witness.run(ctx, {'LunarDayNotSync': 'LunarDay is not Sync (RefCell memo cells cannot be shared across threads)', 'LunarHourNotSync': 'LunarHour is not Sync',
+                          'CachePrivate': 'the month memo is private to the crate', 'ProvidersPrivate': 'the strategy boxes are private to the crate (no external writer)'})
     ctx.assumptions.append('OS scheduling is outside the argument and not needed once the effect rules hold; std::sync::Mutex and RefCell behave as documented')
     ctx.assumptions.append('dyn calls are expanded to every impl of the trait method inside the crate; user-installed providers are outside the statement (queries only)')
-    ctx.not_decided.append('nothing structural is left; the memo evaluation covers %d keys (every year -1..1309 plus modern and range-end years), not all 240,024' % len(keys))
+    ctx.not_decided.append('nothing structural is left; the memo evaluation covers %d of the 240,024 keys (quick tier: every year -1..1309 plus modern and range-end years; thorough tier: all)' % len(keys))
     return ('whole-crate effect analysis on MIR (statics inventory, who-may-touch, guard live ranges vs panic-capable callees, poison tolerance, re-entrancy, lock order, purity, hash iteration) '
             'plus a memo-transparency evaluation of LunarMonth::from_ym with a stub constructor over %d keys and syntactic rules for the per-value RefCell memo cells' % len(keys))
